@@ -439,6 +439,8 @@ Definition gg_guard_complete_simple (args : list Z) : bool :=
 Definition gg_guard_empty_simple (args : list Z) : bool :=
   match args with [n] => 0 <? n | _ => false end.
 Definition gg_guard_grid (dims : list Z) : bool := forallb (fun d => 0 <? d) dims.
+(* repaired guard: at least one dimension *)
+Definition gg_guard_grid_spec (dims : list Z) : bool := negb (gt_is_nil dims) && gg_guard_grid dims.
 Definition gg_guard_glrp (ints : list Z) (p_ok : bool) : bool :=
   match ints with [l; r] => (0 <? l) && (0 <? r) && p_ok | _ => false end.
 Definition gg_guard_glrm (args : list Z) : bool :=
